@@ -74,7 +74,7 @@ class Cfg:
         self.patches = True
         self.examples = True
         self.routes = True
-        self.schema = 'generic'       # None | 'generic' | 'swift'
+        self.schema = 'generic'       # None | 'generic' | 'plain' (no union/Timestamp attrs) | 'swift'
         self.wild_strings = False     # include >=4-space runs / exotic line separators
         self.bytes_ts_defaults = False
         self.alias_tag_defaults = False
@@ -84,6 +84,7 @@ class Cfg:
         self.min_types = 0
         self.redactors = True
         self.union_struct_bias = False
+        self.omitted = True           # Omitted(...) annotations (change what is encoded)
         self.nullable_aliases = False  # `alias N = String?`: stone treats fields of such a type
         #                                inconsistently (DESIGN 5) -> only the frontend checks enable it
         for k, v in kw.items():
@@ -347,7 +348,7 @@ class Builder:
                     params.append(p)
                 defs.append({'k': 'annotation_type', 'name': name, 'doc': None, 'params': params})
         for _ in range(g.int(1, 4)):
-            kinds = [(4, 'Omitted'), (2, 'Deprecated'), (2, 'Preview')]
+            kinds = [(2, 'Deprecated'), (2, 'Preview')] + ([(4, 'Omitted')] if cfg.omitted else [])
             if cfg.redactors:
                 kinds += [(3, 'RedactedBlot'), (3, 'RedactedHash')]
             customs = [d for d in defs if d['k'] == 'annotation_type']
@@ -741,10 +742,12 @@ class Builder:
                           t['type'] is None for _, _, t in self.idx.union_all_tags(n['name'], d, False))]
             for _ in range(g.int(1, 5)):
                 name = self.namer.fresh(SNAKE, taken, extra_ok=lambda s: s not in RESERVED_SNAKE)
-                kinds = [(6, 'String'), (4, 'int'), (2, 'float'), (4, 'Boolean'), (1, 'Bytes'),
-                         (1, 'Timestamp')]
-                if unions:
-                    kinds.append((4, 'union'))
+                kinds = [(6, 'String'), (4, 'int'), (2, 'float'), (4, 'Boolean'), (1, 'Bytes')]
+                if cfg.schema != 'plain':
+                    # python_types cannot express union / Timestamp attribute values (C09 findings)
+                    kinds.append((1, 'Timestamp'))
+                    if unions:
+                        kinds.append((4, 'union'))
                 k = g.weighted(kinds)
                 if k == 'union':
                     n, u = g.choice(unions)
